@@ -29,6 +29,8 @@ func init() {
 		Control{"response queued on a sender not fixed by the session", "gossip/basestream/basestreamseeder/seeder.go", `s\.senders\[session\.senderI\]\.Enqueue`, "s.senders[int(i)%len(s.senders)].Enqueue", "session's own sender"})
 	Controls["C24"] = append(Controls["C24"],
 		Control{"prefix increment loses the overflow exit", "kvdb/table/table.go", `\tif len\(endBn\.Bytes\(\)\) > len\(prefix\) \{\n\t\t// overflow\n\t\treturn nil\n\t\}\n`, "", "C24.inc"})
+	Controls["C09"] = append(Controls["C09"],
+		Control{"reset epoch starts with a decided frame", "abft/apply_genesis.go", `ds\.LastDecidedFrame = FirstFrame - 1`, "ds.LastDecidedFrame = FirstFrame", "C09.sibling"})
 	// round 4
 	Controls["C05"] = append(Controls["C05"],
 		Control{"fork check looks up the observer's branch", "vecfc/forkless_cause.go", `vi\.Engine\.GetEventBranchID\(bID\)`, "vi.Engine.GetEventBranchID(aID)", "C05.bfork"})
